@@ -58,7 +58,7 @@ def pairs():
             t1 += 1
         obs.append(flow.ob(f"rel:{m}:{name}", same, (tier + ("; rules: " + "; ".join(used + extra) if used or extra else "")) if same else "\n".join(diff)[:3000],
                            replay_schema="code", replay_extra={"code": REPLAY, "pair": f"{m}:{name}"}))
-    obs.append(flow.ob("pairs-found", len(prs) >= 70, f"{len(prs)} sync/async pairs, {t1} by await-erasure congruence alone"))
+    obs.append(flow.ob("pairs-found", len(prs) >= 20, f"{len(prs)} sync/async pairs, {t1} by await-erasure congruence alone"))
     return obs
 
 
